@@ -560,6 +560,100 @@ std::string handle(const std::string& op, Args& a)
 			o << I.Interpolate(x, y) << I(x, y);
 		});
 	}
+	if(op == "c10.mat.resize" || op == "c10.mat.assign")
+	{
+		int r = a.i64(), c = a.i64();
+		a.end();
+		return run_forked([&](Out& o) {
+			Matrix M(2, 3, 1.5);
+			if(op == "c10.mat.resize")
+				M.Resize(r, c);
+			else
+				M.Assign(r, c, 2.5);
+			o << M.Rows() << M.Columns();
+		});
+	}
+	if(op == "c10.integmc.shape")
+	{
+		std::string m = method(a);
+		int n		  = a.i64();
+		unsigned rs	  = U(a);
+		a.end();
+		return run_forked([&](Out& o) {
+			std::function<double(std::vector<double>&, const double)> f = [](std::vector<double>& x, const double w) { return 1.0; };
+			std::vector<double> region(rs);
+			for(unsigned i = 0; i < rs; i++)
+				region[i] = i < (rs + 1) / 2 ? 0.0 : 1.0;
+			o << Integrate_MC(f, region, n, m);
+		});
+	}
+	if(op == "c10.simplex.delta" || op == "c10.simplex.deltas" || op == "c10.simplex.pp")
+	{
+		unsigned n = 0, m = 0;
+		std::vector<int> lens;
+		if(op == "c10.simplex.pp")
+			lens = a.ints();
+		else
+		{
+			n = U(a);
+			m = op == "c10.simplex.deltas" ? U(a) : n;
+		}
+		a.end();
+		return run_forked([&](Out& o) {
+			auto f = [](std::vector<double> x) {
+				double s = 0.0;
+				for(double v : x)
+					s += (v - 1.0) * (v - 1.0);
+				return s;
+			};
+			Minimization M(1e-8);
+			std::vector<double> r;
+			if(op == "c10.simplex.pp")
+			{
+				std::vector<std::vector<double>> pp;
+				for(size_t i = 0; i < lens.size(); i++)
+				{
+					std::vector<double> row(lens[i], 0.5);
+					if(i > 0 && i - 1 < row.size())
+						row[i - 1] += 0.1;
+					pp.push_back(row);
+				}
+				r = M.minimize(pp, f);
+			}
+			else
+			{
+				std::vector<double> start(n, 0.5), deltas(m, 0.1);
+				r = op == "c10.simplex.delta" ? M.minimize(start, 0.1, f) : M.minimize(start, deltas, f);
+			}
+			o.list(r);
+		});
+	}
+	if(op == "c10.mean" || op == "c10.median" || op == "c10.variance" || op == "c10.stddev" || op == "c10.wavg")
+	{
+		unsigned n = U(a);
+		a.end();
+		return run_forked([&](Out& o) {
+			std::vector<double> d(n);
+			for(unsigned i = 0; i < n; i++)
+				d[i] = 1.5 + 0.25 * ((i * 7) % 5);
+			if(op == "c10.mean")
+				o << Arithmetic_Mean(d);
+			else if(op == "c10.median")
+				o << Median(d);
+			else if(op == "c10.variance")
+				o << Variance(d);
+			else if(op == "c10.stddev")
+				o << Standard_Deviation(d);
+			else
+			{
+				std::vector<DataPoint> w;
+				for(unsigned i = 0; i < n; i++)
+					w.push_back(DataPoint(d[i], 1.0 + (i % 2)));
+				auto r = Weighted_Average(w);
+				o << r[0] << r[1];
+			}
+		});
+	}
 	// ---------------------------------------------------------------- 4. Find_Root
 	if(op == "c10.findroot")
 	{
@@ -621,6 +715,26 @@ std::string handle(const std::string& op, Args& a)
 				std::vector<double> region = {0.0, 0.0, 1.0, 1.0};
 				o << Integrate_MC(f, region, 1000, m);
 			}
+		});
+	}
+	if(op == "c10.glrows" || op == "c10.glfunc")   // a rule whose rows have the given lengths
+	{
+		unsigned n = op == "c10.glrows" ? U(a) : 0;
+		auto lens  = a.ints();
+		a.end();
+		return run_forked([&](Out& o) {
+			std::vector<std::vector<double>> rw;
+			for(int l : lens)
+			{
+				std::vector<double> row(l, 0.25);
+				if(l > 0)
+					row[0] = 0.5;
+				rw.push_back(row);
+			}
+			if(op == "c10.glrows")
+				o << Integrate_Gauss_Legendre(std::vector<double>(n, 1.5), rw);
+			else
+				o << Integrate_Gauss_Legendre([](double x) { return 1.0 + x; }, rw);
 		});
 	}
 	if(op == "c10.gl")
